@@ -57,8 +57,14 @@ def do_op(w, cfg, op):
     raise ValueError("unknown op %r" % k)
 
 
-def run_session(report, top, cfg, ops, session=0):
-    """open writer, run ops, close; report every API outcome"""
+def run_session(report, top, cfg, ops, session=0, sync=False):
+    """open writer, run ops, close; report every API outcome.
+    sync=True parks the node (kind "sync") after every report so the simulator can look."""
+    _report = report
+    if sync:
+        def report(obj):  # noqa
+            _report(obj)
+            _report.sync("%s:%s:%s" % (obj["ev"][0], obj["call"], obj.get("i", "")))
     report({"ev": "begin", "call": "open", "s": session})
     try:
         w = open_writer(top, cfg)
